@@ -59,6 +59,8 @@ module.exports = {
       if (r.status === 'inconclusive') rep.inconclusive.push({ reason: 'exec-timeout', detail: js[i].meta.sigBase })
       if (r.d) {
         rep.evaluations++
+        if (js[i].meta.splices) bump('programs_with_spliced_operations')
+        if (js[i].meta.eol) bump('programs_with_' + js[i].meta.eol + '_line_endings')
         bump('runs', r.d.runs); bump('world_events_clean', r.d.events)
         if (r.d.events >= 3) rep.distinct.push(hashStr(js[i].code))
         if (js[i].meta.placement) { rep.sets.placements.push(js[i].meta.placement); rep.sets.forms.push(js[i].meta.form) }
